@@ -43,7 +43,8 @@ var c15Arrays = []c15Arr{
 func (g *c15Gen) program(extra ...*ast.Node) *DCase {
 	stmts := append(append([]*ast.Node{}, g.stmts...), extra...)
 	return &DCase{
-		Prog:  ast.Prog(ast.Rule("pattern", nil, ast.Block(stmts...))),
+		Prog: ast.Prog(ast.Func("mk", nil, ast.Block(ast.Return(ast.Arr(ast.Num("7"), ast.Str("8"), ast.Num("9"))))),
+			ast.Rule("pattern", nil, ast.Block(stmts...))),
 		Files: []DFile{{Name: "in", Docs: []string{`{"list":[3,1,2]}`}}},
 	}
 }
@@ -136,7 +137,14 @@ func (g *c15Gen) action() bool {
 	var stmts []*ast.Node
 	label := ""
 	res := func(e *ast.Node) { stmts = append(stmts, ast.Print(ast.Str("R"), e)) }
-	switch k := g.n(0, 25, "op"); {
+	switch k := g.n(0, 26, "op"); {
+	case k == 26:
+		// a fresh array from a literal that is evaluated again and again (inside mk): every
+		// evaluation makes a list of its own, whatever happened to the earlier ones
+		nm := rapid.SampledFrom([]string{"a", "b", "c"}).Draw(g.t, "remake")
+		stmts = append(stmts, ast.ExprS(ast.Set(ast.Id(nm), ast.Call(ast.Id("mk")))))
+		label = "fresh-array-from-a-reused-literal"
+		g.last[nm] = ""
 	case k <= 3:
 		stmts = append(stmts, ast.ExprS(ast.Method(a.expr(), "push", g.elem())))
 		label = "push"
